@@ -201,11 +201,15 @@ def frame_obligations(ip, c, env, old_heap):
     st = ip.st
     allowed = set()
     for nm in c.assigns:
-        base = env.get(nm.split('.')[0])
-        v = base
+        only = nm.endswith('!')          # 'x!' = the object x itself, not the objects reachable from it
+        nm = nm.rstrip('!')
+        v = env.get(nm.split('.')[0])
         for attr in nm.split('.')[1:]:
             v = old_heap[v.id]['f'][attr]
-        _reachable(ip, old_heap, v, allowed) if not nm.endswith('!') else allowed.add(v.id)
+        if only:
+            allowed.add(v.id)
+        else:
+            _reachable(ip, old_heap, v, allowed)
     for k, oc in old_heap.items():
         if k in allowed:
             continue
@@ -535,12 +539,19 @@ def native_clause(fn):
     fd.args.args.append(ast.arg(arg='__old__'))
     ast.fix_missing_locations(tree)
     g = dict(fn.__globals__)
+    if fn.__closure__:
+        # the clause is recompiled at module level: its free variables become globals of that private namespace
+        for nm_, cell_ in zip(fn.__code__.co_freevars, fn.__closure__):
+            try:
+                g[nm_] = cell_.cell_contents
+            except ValueError:
+                pass
     exec(compile(tree, '<contract %s>' % fn.__qualname__, 'exec'), g)
     post_f = g[fd.name]
     old_exprs = [compile(ast.fix_missing_locations(ast.Expression(e)), '<old>', 'eval') for e in rw.olds]
 
     def pre(values):
-        env = dict(fn.__globals__)
+        env = dict(g)
         env.update(values)
         out = []
         for e in old_exprs:
